@@ -147,10 +147,14 @@ def run_jobs(tier, seed, v, cov, claim, jobs=None, validate=True):
                 v.violation("maint-" + kind, "%s (seed %s scenario %s)" % (what, s, f["seg"]), rp)
             else:
                 log("  deviation from Maintainer.tla (no listed property): seed %s scenario %s: %s" % (s, f["seg"], f["line"][:200]))
-    cov["maintainer_runs"] = dict(scenarios_validated=scen, events=events, questionable_pings=pings, refresh_queries=refresh,
+    cov["maintainer_runs"] = dict(events=events, questionable_pings=pings, refresh_queries=refresh,
                                   rule="real TableMaintainer against 12 simulated contacts (answer pings at try 1/2/3/never, answer find_node in "
-                                       "time/late/never with seeded node lists, ping the node), bucket size 2 and 8, Close when quiet or mid-pass; "
-                                       "every recorded run must be a behaviour of Maintainer.tla")
+                                       "time/late/never with seeded node lists, ping the node; strangers' datagrams queue for the write lock in half "
+                                       "of the scenarios), bucket size 2 and 8, Close when quiet or mid-pass; "
+                                       + ("every recorded run must be a behaviour of Maintainer.tla (TLC trace validation)" if validate else
+                                          "here only the driver's own verdicts are read from the traces (node wedged, routine not returning, "
+                                          "goroutines left, process died); the full trace validation runs in C14's thorough tier and bin/check X-MAINT"))
+    cov["maintainer_runs"]["scenarios_validated" if validate else "scenarios_scanned"] = scen
     return scen
 
 
